@@ -927,7 +927,8 @@ func TestVerifKeepAlive(t *testing.T) {
 		}
 		for _, ln := range strings.Split(string(b), "\n") {
 			ln = strings.TrimPrefix(strings.TrimSpace(ln), "verif-hang ")
-			if ln == "" || strings.HasPrefix(ln, "#") || ln == "reset" || strings.HasPrefix(ln, "kss ") || strings.Contains(ln, " side=http ") || strings.Contains(ln, " side=ctxw ") || strings.Contains(ln, " side=srvw ") {
+			if ln == "" || strings.HasPrefix(ln, "#") || ln == "reset" || strings.HasPrefix(ln, "kss ") || strings.Contains(ln, " side=http ") || strings.Contains(ln, " side=ctxw ") || strings.Contains(ln, " side=srvw ") ||
+				(strings.HasPrefix(ln, "kas ") && !strings.Contains(ln, " side=client ") && !strings.Contains(ln, " side=server ")) {
 				continue // `kss` lines belong to the stream `sessions`, `kas side=http|ctxw` lines to the stream `http`
 			}
 			c, ok := kaParse(ln)
